@@ -902,12 +902,13 @@ def _interval_union(bounds1, bounds2):
     bounds is a list of tuples [(lo,hi),...]
     """
     if not len(bounds2) or not len(bounds1): return []
-    import numpy
-    bounds1,bounds2 = numpy.asarray(bounds1),numpy.asarray(bounds2)
-    _a,a_ = bounds1.min(),bounds1.max()
-    _b,b_ = bounds2.min(),bounds2.max()
-    lb,ub = min(_a,_b),max(a_,b_)
-    return _interval_invert(_interval_intersection(_interval_invert(bounds1,lb,ub),_interval_invert(bounds2,lb,ub)),lb,ub)
+    bounds = sorted(tuple(i) for i in list(bounds1)+list(bounds2))
+    results = [bounds[0]]
+    for lo,hi in bounds[1:]: # merge the intervals that overlap or touch
+        l,h = results[-1]
+        if lo <= h: results[-1] = (l,max(h,hi))
+        else: results.append((lo,hi))
+    return results
 
 
 #XXX: generalize to *bounds?
